@@ -12,7 +12,7 @@ Definition by_tag_same (model obs : list (str * list str)) : bool :=
 Definition run_render (cases : list (render_in * list (str * list str))) : list N :=
   report by_tag_same
          (fun c => match c with (tags, sans, d, _) => emitted_by_tag (san_of tags) (san_of sans) (parse_doc d) end)
-         (fun c => match c with (_, _, d, g) => [all_str d; guard_acyclic g; guard_no_allof_cycle g] end) cases.
+         (fun c => match c with (_, _, d, g) => [guard_acyclic g; guard_no_allof_cycle g] end) cases.
 
 (* ---- keys: load_ir_from_spec(...).operations *)
 Definition op_row := (str * str * str * list str)%type.
@@ -21,7 +21,7 @@ Definition op_row_eqb (a b : op_row) : bool :=
 Definition run_keys (cases : list (doc * option (list op_row))) : list N :=
   report (opt_eqb (list_eqb op_row_eqb))
          (fun d => Some (map (fun p => (p_path p, p_method p, p_id p, p_codes p)) (parse_doc d)))
-         (fun d => [all_str d]) cases.
+         (fun _ => []) cases.
 
 (* ---- yamlkey: what PyYAML does to an unquoted key *)
 Definition run_yamlkey (cases : list (str * key)) : list N :=
